@@ -60,13 +60,14 @@ type Scenario struct {
 	Peers       int            `json:"peers,omitempty"`
 	StallAt     int            `json:"stall_at,omitempty"` // tcp, one peer: before its n-th frame (1-based) the peer sends only StallOctets of it, pauses longer than the server\'s read timeout, then carries on
 	StallOctets int            `json:"stall_octets,omitempty"`
-	Trickle     bool           `json:"trickle,omitempty"`    // the stalled frame arrives in three pieces, 1.5 and 1 read timeouts apart (each piece makes progress, none arrives in time)
-	CutAt       int            `json:"cut_at,omitempty"`     // tcp, one peer: its n-th frame (1-based) announces its full length but only CutOctets of the body are sent before the peer closes
-	CutOctets   int            `json:"cut_octets,omitempty"` // body octets sent (chosen on a question / record boundary as often as not)
-	ShutAfter   int            `json:"shut_after,omitempty"` // udp: Shutdown is called after this many steps, while peers are still sending (0 = after they are done)
-	Transient   []int          `json:"transient,omitempty"`  // these accept / datagram-read attempts fail with a temporary, non-timeout error
-	UDPSock     bool           `json:"udp_sock,omitempty"`   // udp: the server runs on a UDP socket (SessionUDP branch) where the build has that seam
-	PostYield   bool           `json:"post_yield,omitempty"` // the return of every transport operation is a scheduling point of its own
+	NoInvalidFn bool           `json:"no_invalid_func,omitempty"` // Server.MsgInvalidFunc is left unset (the default configuration): reports cannot be observed, everything else can
+	Trickle     bool           `json:"trickle,omitempty"`         // the stalled frame arrives in three pieces, 1.5 and 1 read timeouts apart (each piece makes progress, none arrives in time)
+	CutAt       int            `json:"cut_at,omitempty"`          // tcp, one peer: its n-th frame (1-based) announces its full length but only CutOctets of the body are sent before the peer closes
+	CutOctets   int            `json:"cut_octets,omitempty"`      // body octets sent (chosen on a question / record boundary as often as not)
+	ShutAfter   int            `json:"shut_after,omitempty"`      // udp: Shutdown is called after this many steps, while peers are still sending (0 = after they are done)
+	Transient   []int          `json:"transient,omitempty"`       // these accept / datagram-read attempts fail with a temporary, non-timeout error
+	UDPSock     bool           `json:"udp_sock,omitempty"`        // udp: the server runs on a UDP socket (SessionUDP branch) where the build has that seam
+	PostYield   bool           `json:"post_yield,omitempty"`      // the return of every transport operation is a scheduling point of its own
 	Msgs        []InMsg        `json:"msgs,omitempty"`
 	Initial     map[string]int `json:"initial,omitempty"` // mux: patterns registered before the tasks start
 	Ops         []MuxOp        `json:"ops,omitempty"`
@@ -138,6 +139,7 @@ func Gen(seed uint64, tier string) any {
 	sc.Peers = 1 + r.IntN(3)
 	sc.UDPSock = sc.Transport == "udp" && core.Chance(r, 50)
 	sc.PostYield = core.Chance(r, 35)
+	sc.NoInvalidFn = core.Chance(r, 15)
 
 	if sc.Transport == "udp" && core.Chance(r, 25) {
 		sc.ShutAfter = 5 + r.IntN(60)
@@ -401,6 +403,12 @@ func (a *adm) accept(dh dns.Header) dns.MsgAcceptAction {
 
 //go:norace
 func (a *adm) invalidFunc(m []byte, err error) {
+	if a.sc.Yield {
+		// a callback that takes its time before it looks at the octets it was given
+		// (logging, metrics): they must still be the ones that were received
+		a.k.Yield("invalid.enter", 0)
+		a.k.WaitSteps("invalid.slow", 1+int(a.sc.RunSeed%3), time.Millisecond)
+	}
 	a.k.Lock()
 	a.invalid = append(a.invalid, string(m))
 	a.k.EffectLocked("invalid " + strconv.Itoa(len(m)))
@@ -604,6 +612,10 @@ func runAdmission(sc *Scenario, res *core.Result, verbose bool) {
 	a.mux = dns.NewServeMux()
 	a.mux.Handle("test.", recHandler{a})
 	a.srv = &dns.Server{Handler: a, MsgAcceptFunc: a.accept, MsgInvalidFunc: a.invalidFunc, UDPSize: sc.UDPSize, ReadTimeout: time.Hour, IdleTimeout: hour, MaxTCPQueries: -1}
+	if sc.NoInvalidFn {
+		a.srv.MsgInvalidFunc = nil
+		res.Bump("cover.default_invalid_func")
+	}
 	if sc.Yield {
 		a.srv.DecorateReader = (&common.Decorator{K: k}).Decorate
 	}
@@ -808,6 +820,9 @@ func (a *adm) judge() {
 	}
 	for _, s := range core.SortedKeys(wantInvalid) {
 		n := wantInvalid[s]
+		if sc.NoInvalidFn {
+			break // the library's default callback (a no-op) is in place: nothing to observe
+		}
 		if gotInvalid[s] != n {
 			res.Fail("D1", "invalid-not-reported", "a message of %d octets that cannot be handled was received %d time(s) but reported to MsgInvalidFunc %d time(s): %x", len(s), n, gotInvalid[s], trunc(s))
 			return
